@@ -20,7 +20,7 @@ CONSTANTS NApps,          \* number of applications (app k >= 2 is mounted once,
 
 Segs      == {SSeg(w) : w \in SEGSTR} \cup {[k |-> "P", s |-> <<n>>] : n \in PNAMES}
 RoutesN   == UNION {[1..n -> Segs] : n \in 0..MaxDepth}
-MountPres == UNION {[1..n -> Segs] : n \in 1..MaxMountDepth}
+MountPres == UNION {[1..n -> Segs] : n \in 0..MaxMountDepth}     \* <<>>: mounted at the root, `"/".By(child)`
 
 VARIABLES apps, mountedSet, nextH, done
 vars == <<apps, mountedSet, nextH, done>>
@@ -51,7 +51,7 @@ SigChoices(tot, k) ==
   ELSE IF SIGMODE = "mc" THEN {Sig(pv, "none", "text") : pv \in {q \in {"p0", "u", "us"} : HandlerNP(q) =< tot}}
   ELSE {LET pvs == SetToSeq({q \in PVs : HandlerNP(q) = np}) IN Rot(pvs[(k % Len(pvs)) + 1], k \div 4) : np \in 0..tot}
 
-Finishable == mountedSet = 2..NApps /\ \A a \in 1..NApps : \E it \in Items(a) : it.t = "route"
+Finishable == mountedSet = 2..NApps /\ \A a \in 1..NApps : \E it \in Items(a) : it.t = "route" \/ (it.t = "mount" /\ it.segs = <<>>)
 SetFangs(a, f) == /\ ~done /\ apps[a].fangs = <<>> /\ apps[a].items = <<>>
                   /\ (a # 1 => a \in mountedSet /\ Satisfiable(FangsAbove(ParentOf(a)) \cup SeqToSet(f)))
                   /\ apps' = [apps EXCEPT ![a].fangs = f] /\ UNCHANGED <<mountedSet, nextH, done>>
